@@ -16,7 +16,8 @@ def run(item):
         if r.returncode: res['error'] = 'patch does not apply: ' + r.stderr; return res
         subprocess.run(f'rsync -a /tmp/mx/_snap/ {base}/verif/', shell=True, check=True)
         env = dict(os.environ, VERIF_REPO=wt)
-        for pid in PIDS:
+        # MATRIX_TARGET=1: only the check of the property the change was written against (its id is part of the name)
+        for pid in ([re.search(r'C\d\d', name).group(0)] if os.environ.get('MATRIX_TARGET') else PIDS):
             t = time.time()
             r = subprocess.run(['./vcheck', 'check', pid, '--tier', 'quick'], cwd=f'{base}/verif', capture_output=True, text=True, env=env)
             lines = [l for l in r.stdout.splitlines() if re.match(r'^(C\d+ |VIOLATION|KNOWN|  - )', l)]
